@@ -394,8 +394,13 @@ func (g *generator) walkList(schema *schemaparser.Schema) (ast.Type, error) {
 	case schema.Items2020 != nil:
 		itemsDef, err = g.walkDefinition(schema.Items2020)
 	default:
-		// TODO: schema.Items might not be a schema?
-		itemsDef, err = g.walkDefinition(schema.Items.(*schemaparser.Schema))
+		// schema.Items is either a schema or, for tuples, a list of schemas
+		itemsSchema, ok := schema.Items.(*schemaparser.Schema)
+		if !ok {
+			return ast.Type{}, fmt.Errorf("unsupported 'items': only a single schema is supported, not a list of schemas (tuple)")
+		}
+
+		itemsDef, err = g.walkDefinition(itemsSchema)
 	}
 
 	// items contains an empty schema: `{}`
